@@ -45,11 +45,25 @@ def gen_case(rng):
     qb = rng.choice(['none', 'none', 'sym', 'pair'])
     qbound = False if qb == 'none' else (round(rng.uniform(0.05, 0.25), 3) if qb == 'sym'
                                          else [round(rng.uniform(0.05, 0.25), 3), round(rng.uniform(0.7, 0.9), 3)])
+    yscale = 'as drawn'
     if otype == 'normal' and rng.random() < 0.5:
         y = df['Y']
         df = df.copy()
         df['Y'] = np.round(np.exp((y - y.mean()) / (y.std() + 1e-9) * 1.3), 4)     # heavy right tail
         qb = qb + '+skewed'
+    elif otype == 'normal':
+        # location and unit of a continuous outcome are arbitrary: a proportion inside (0,1), negative values, large units
+        y = df['Y']
+        z = (y - y.min()) / (y.max() - y.min() + 1e-12)
+        yscale = rng.choice(['as drawn', 'proportion', 'negative', 'large'])
+        df = df.copy()
+        if yscale == 'proportion':
+            df['Y'] = np.round(0.22 + 0.56 * z, 4)
+        elif yscale == 'negative':
+            df['Y'] = np.round(-40.0 + 15.0 * z, 3)
+        elif yscale == 'large':
+            df['Y'] = np.round(2.5e5 + 9.0e5 * z, 0)
+    meta['yscale'] = yscale
     # the storage type of a 0/1-coded exposure column is part of "every data set"
     adtype = str(rng.choice(['int64', 'int64', 'float64', 'uint8', 'int8', 'int32', 'float32']))
     if adtype != 'int64':
@@ -216,6 +230,7 @@ def check_case(ctx, fails, case, tr, small_exprs, small_refs):
     ctx.count('bound:' + case['bkind'])
     ctx.count('q-bound:' + case.get('qkind', 'none'))
     ctx.count('exposure-dtype:' + case.get('adtype', 'int64'))
+    ctx.count('continuous outcome scale:' + str(meta.get('yscale', 'as drawn')))
     ctx.count('positivity:' + ('near-violation, no bound' if meta.get('extreme') else 'ordinary'))
     ctx.sample({'n': n, 'outcome': meta['outcome'], 'missing': meta['missing'], 'bound': case['bound'], 'epsilon': [float(x) for x in pr['epsilon']],
                 'score_sums': [s1, s0], 'estimate': got}, cap=4)
